@@ -51,7 +51,10 @@ func setup4(args ...string) (handler.Handler4, error) {
 }
 
 func Handler4(req, resp *dhcpv4.DHCPv4) (*dhcpv4.DHCPv4, bool) {
-	v6pref := req.IsOptionRequested(dhcpv4.OptionIPv6OnlyPreferred)
+	// RFC 8925: only clients that explicitly list the option are IPv6-only capable.
+	// IsOptionRequested alone is also true when there is no parameter request list.
+	v6pref := req.ParameterRequestList() != nil &&
+		req.IsOptionRequested(dhcpv4.OptionIPv6OnlyPreferred)
 	log.WithFields(logrus.Fields{
 		"mac":      req.ClientHWAddr.String(),
 		"ipv6only": v6pref,
